@@ -1,0 +1,366 @@
+//! Verification hooks. Compiled only with the `verif-hooks` cargo feature.
+//!
+//! DO NOT USE! Not part of the public API. Everything here is additive: with
+//! the feature off nothing is compiled, and with it on but no harness
+//! installed every hook is a no-op.
+
+use crate::codec::{FramedIo, Message, ZmqCodec, ZmqCommand, ZmqFramedRead, ZmqGreeting};
+use crate::fair_queue::{FairQueue, QueueInner};
+use crate::util::PeerIdentity;
+use crate::{MultiPeerBackend, SocketType, ZmqMessage, ZmqResult};
+
+use asynchronous_codec::{Decoder, Encoder};
+use bytes::{Bytes, BytesMut};
+use futures::Stream;
+use parking_lot::Mutex;
+
+use std::cell::RefCell;
+use std::collections::HashMap;
+use std::future::Future;
+use std::hash::Hash;
+use std::pin::Pin;
+use std::sync::Arc;
+use std::task::{Context, Poll};
+
+/// Public mirror of the private codec item.
+#[derive(Debug, Clone, PartialEq, Eq)]
+pub enum Item {
+    Greeting {
+        version: (u8, u8),
+        mechanism: String,
+        as_server: bool,
+    },
+    Command {
+        name: String,
+        properties: Vec<(String, Vec<u8>)>,
+    },
+    Message(Vec<Vec<u8>>),
+}
+
+fn mirror(m: Message) -> Item {
+    match m {
+        Message::Greeting(g) => Item::Greeting {
+            version: g.version,
+            mechanism: g.mechanism.as_str().to_string(),
+            as_server: g.as_server,
+        },
+        Message::Command(c) => {
+            let mut properties: Vec<(String, Vec<u8>)> = c
+                .properties
+                .iter()
+                .map(|(k, v)| (k.clone(), v.to_vec()))
+                .collect();
+            properties.sort();
+            Item::Command {
+                name: c.name.as_str().to_string(),
+                properties,
+            }
+        }
+        Message::Message(m) => Item::Message(m.iter().map(|f| f.to_vec()).collect()),
+    }
+}
+
+/// Newtype over the private frame codec.
+pub struct Codec(ZmqCodec);
+
+impl Default for Codec {
+    fn default() -> Self {
+        Self::new()
+    }
+}
+
+impl Codec {
+    pub fn new() -> Self {
+        Codec(ZmqCodec::new())
+    }
+
+    pub fn decode(&mut self, src: &mut BytesMut) -> Result<Option<Item>, String> {
+        match self.0.decode(src) {
+            Ok(Some(m)) => Ok(Some(mirror(m))),
+            Ok(None) => Ok(None),
+            Err(e) => Err(format!("{:?}", e)),
+        }
+    }
+
+    pub fn encode_message(&mut self, m: ZmqMessage, dst: &mut BytesMut) -> Result<(), String> {
+        self.0
+            .encode(Message::Message(m), dst)
+            .map_err(|e| format!("{:?}", e))
+    }
+
+    /// `mechanism`: 0 NULL, 1 PLAIN, 2 CURVE
+    pub fn encode_greeting(
+        &mut self,
+        version: (u8, u8),
+        mechanism: u8,
+        as_server: bool,
+        dst: &mut BytesMut,
+    ) -> Result<(), String> {
+        use crate::codec::mechanism::ZmqMechanism;
+        let mechanism = match mechanism {
+            0 => ZmqMechanism::NULL,
+            1 => ZmqMechanism::PLAIN,
+            _ => ZmqMechanism::CURVE,
+        };
+        self.0
+            .encode(
+                Message::Greeting(ZmqGreeting {
+                    version,
+                    mechanism,
+                    as_server,
+                }),
+                dst,
+            )
+            .map_err(|e| format!("{:?}", e))
+    }
+
+    pub fn encode_ready(
+        &mut self,
+        socket_type: SocketType,
+        props: Vec<(String, Vec<u8>)>,
+        dst: &mut BytesMut,
+    ) -> Result<(), String> {
+        let mut ready = ZmqCommand::ready(socket_type);
+        let map: HashMap<String, Bytes> = props
+            .into_iter()
+            .map(|(k, v)| (k, Bytes::from(v)))
+            .collect();
+        ready.add_properties(map);
+        self.0
+            .encode(Message::Command(ready), dst)
+            .map_err(|e| format!("{:?}", e))
+    }
+
+    pub fn debug(&self) -> String {
+        format!("{:?}", self.0)
+    }
+}
+
+/// Probe over the real framed reader (the type that sits in every socket's
+/// receive queue).
+pub struct FramedReadProbe(ZmqFramedRead);
+
+impl FramedReadProbe {
+    pub fn new<R>(reader: R) -> Self
+    where
+        R: futures::AsyncRead + Unpin + Send + Sync + 'static,
+    {
+        FramedReadProbe(ZmqFramedRead::new(Box::new(reader), ZmqCodec::new()))
+    }
+
+    pub fn poll_next(&mut self, cx: &mut Context<'_>) -> Poll<Option<Result<Item, String>>> {
+        match Pin::new(&mut self.0).poll_next(cx) {
+            Poll::Ready(Some(Ok(m))) => Poll::Ready(Some(Ok(mirror(m)))),
+            Poll::Ready(Some(Err(e))) => Poll::Ready(Some(Err(format!("{:?}", e)))),
+            Poll::Ready(None) => Poll::Ready(None),
+            Poll::Pending => Poll::Pending,
+        }
+    }
+
+    pub fn buffer_len(&self) -> usize {
+        self.0.read_buffer().len()
+    }
+
+    pub fn decoder_debug(&self) -> String {
+        format!("{:?}", self.0.decoder())
+    }
+}
+
+/// Runs the real greeting + READY handshake and peer registration (the same
+/// `util::peer_connected` that `bind`'s accept callback and `connect` call) over
+/// harness-supplied byte pipes.
+pub async fn attach<R, W>(
+    backend: Arc<dyn MultiPeerBackend>,
+    reader: R,
+    writer: W,
+) -> ZmqResult<PeerIdentity>
+where
+    R: futures::AsyncRead + Unpin + Send + Sync + 'static,
+    W: futures::AsyncWrite + Unpin + Send + Sync + 'static,
+{
+    crate::util::peer_connected(FramedIo::new(Box::new(reader), Box::new(writer)), backend).await
+}
+
+pub type BoxedTask = Pin<Box<dyn Future<Output = ()> + Send + 'static>>;
+
+thread_local! {
+    static SPAWN_SINK: RefCell<Option<Box<dyn FnMut(BoxedTask)>>> = const { RefCell::new(None) };
+    static YIELD_HOOK: RefCell<Option<Box<dyn FnMut(&'static str) -> bool>>> = const { RefCell::new(None) };
+    static FQ_POPPED: RefCell<Option<Box<dyn FnMut(usize)>>> = const { RefCell::new(None) };
+    static FQ_POINT: RefCell<Option<Box<dyn FnMut()>>> = const { RefCell::new(None) };
+}
+
+/// Installs (or clears) the per-thread sink that receives every task the
+/// library spawns on this thread.
+pub fn set_spawn_sink(sink: Option<Box<dyn FnMut(BoxedTask)>>) {
+    SPAWN_SINK.with(|s| *s.borrow_mut() = sink);
+}
+
+pub fn set_yield_hook(hook: Option<Box<dyn FnMut(&'static str) -> bool>>) {
+    YIELD_HOOK.with(|s| *s.borrow_mut() = hook);
+}
+
+pub fn set_fq_hooks(popped: Option<Box<dyn FnMut(usize)>>, point: Option<Box<dyn FnMut()>>) {
+    FQ_POPPED.with(|s| *s.borrow_mut() = popped);
+    FQ_POINT.with(|s| *s.borrow_mut() = point);
+}
+
+pub(crate) fn wrap_spawned<T>(task: T) -> Pin<Box<dyn Future<Output = T::Output> + Send + 'static>>
+where
+    T: Future + Send + 'static,
+    T::Output: Send + 'static,
+{
+    let installed = SPAWN_SINK.with(|s| s.borrow().is_some());
+    if !installed {
+        return Box::pin(task);
+    }
+    let (tx, rx) = futures::channel::oneshot::channel();
+    let real: BoxedTask = Box::pin(async move {
+        let out = task.await;
+        let _ = tx.send(out);
+    });
+    // Take the sink out while calling it so that a re-entrant spawn cannot
+    // observe a borrowed cell.
+    let sink = SPAWN_SINK.with(|s| s.borrow_mut().take());
+    if let Some(mut sink) = sink {
+        sink(real);
+        SPAWN_SINK.with(|s| {
+            let mut slot = s.borrow_mut();
+            if slot.is_none() {
+                *slot = Some(sink);
+            }
+        });
+    }
+    Box::pin(async move {
+        match rx.await {
+            Ok(v) => v,
+            Err(_) => futures::future::pending().await,
+        }
+    })
+}
+
+pub struct YieldPoint {
+    name: &'static str,
+    asked: bool,
+}
+
+impl Future for YieldPoint {
+    type Output = ();
+
+    fn poll(mut self: Pin<&mut Self>, cx: &mut Context<'_>) -> Poll<()> {
+        if self.asked {
+            return Poll::Ready(());
+        }
+        self.asked = true;
+        let name = self.name;
+        let hook = YIELD_HOOK.with(|s| s.borrow_mut().take());
+        let preempt = match hook {
+            Some(mut h) => {
+                let r = h(name);
+                YIELD_HOOK.with(|s| {
+                    let mut slot = s.borrow_mut();
+                    if slot.is_none() {
+                        *slot = Some(h);
+                    }
+                });
+                r
+            }
+            None => false,
+        };
+        if preempt {
+            cx.waker().wake_by_ref();
+            Poll::Pending
+        } else {
+            Poll::Ready(())
+        }
+    }
+}
+
+/// Marks a place between two individually atomic steps of the library where a
+/// scheduler may run another task. Without a harness this completes at once.
+pub fn yield_point(name: &'static str) -> YieldPoint {
+    YieldPoint { name, asked: false }
+}
+
+pub(crate) fn fq_note_popped(ticket: usize) {
+    let hook = FQ_POPPED.with(|s| s.borrow_mut().take());
+    if let Some(mut h) = hook {
+        h(ticket);
+        FQ_POPPED.with(|s| {
+            let mut slot = s.borrow_mut();
+            if slot.is_none() {
+                *slot = Some(h);
+            }
+        });
+    }
+}
+
+pub(crate) fn fq_point() {
+    let hook = FQ_POINT.with(|s| s.borrow_mut().take());
+    if let Some(mut h) = hook {
+        h();
+        FQ_POINT.with(|s| {
+            let mut slot = s.borrow_mut();
+            if slot.is_none() {
+                *slot = Some(h);
+            }
+        });
+    }
+}
+
+/// Observable state of the fair queue: (ticket counter, heap content as a
+/// sorted list of (ticket, key), keys of the stored streams, receiver waker
+/// present).
+#[derive(Debug, Clone, PartialEq, Eq)]
+pub struct FairQueueSnapshot<K> {
+    pub counter: usize,
+    pub heap: Vec<(usize, K)>,
+    pub streams: Vec<K>,
+    pub waker: bool,
+}
+
+/// Handle on the shared part of a fair queue: what socket backends use to add
+/// and remove peers while the receiver owns the queue itself.
+pub struct FairQueueHandle<S, K: Clone>(Arc<Mutex<QueueInner<S, K>>>);
+
+impl<S, K: Clone> Clone for FairQueueHandle<S, K> {
+    fn clone(&self) -> Self {
+        FairQueueHandle(self.0.clone())
+    }
+}
+
+impl<S, K: Clone + Eq + Hash + Ord> FairQueueHandle<S, K> {
+    pub fn insert(&self, k: K, s: S) {
+        self.0.lock().insert(k, s);
+    }
+
+    pub fn remove(&self, k: &K) {
+        self.0.lock().remove(k);
+    }
+
+    pub fn snapshot(&self) -> FairQueueSnapshot<K> {
+        self.0.lock().verif_snapshot()
+    }
+}
+
+/// Newtype over the private fair queue.
+pub struct FairQueueProbe<S, K: Clone>(FairQueue<S, K>);
+
+impl<S, T, K> FairQueueProbe<S, K>
+where
+    T: Send,
+    S: Stream<Item = T> + Send + 'static,
+    K: Eq + Hash + Ord + Unpin + Clone + Send + Sync + 'static,
+{
+    pub fn new(block_on_no_clients: bool) -> Self {
+        FairQueueProbe(FairQueue::new(block_on_no_clients))
+    }
+
+    pub fn handle(&self) -> FairQueueHandle<S, K> {
+        FairQueueHandle(self.0.inner())
+    }
+
+    pub fn poll_next(&mut self, cx: &mut Context<'_>) -> Poll<Option<(K, T)>> {
+        Pin::new(&mut self.0).poll_next(cx)
+    }
+}
